@@ -53,10 +53,10 @@ CLAIMED.update({
          "Trusted: shuttle (treats all atomic orderings as SeqCst: weak-memory effects are not explored), the shadow manifests build the same sources as /repo.",
          "DESIGN.md section 3, C16"),
  "C06": ("deterministic simulation: a connected real Connection receives from a conforming sender model that emits every control kind in every wire form (pass-through, distribution header with an OTP-style atom cache, fragmented), ticks and junk frames over a segmented, delayed simulated stream; reference = the sender's log",
-         "Seeded search over (item sequences: control kinds x payloads x wire forms, ticks, eight kinds of junk frame, network behaviour). Oracle: the results of successive receive_message calls equal the sender's expectation list call by call: one Ok with equal control and payload per complete valid message, one Err per junk frame, nothing for ticks and non-final fragments; no panic. Fragmented messages are sent as the protocol prescribes and their non-delivery is the recorded known finding; any other discrepancy fails. Sampling, not proof.",
+         "Seeded search over (item sequences: control kinds x payloads x wire forms, ticks, eleven kinds of junk frame, three receive APIs, idle gaps and abandoned idle calls, network behaviour). Oracle: the results of successive receive_message calls equal the sender's expectation list call by call: one Ok with equal control and payload per complete valid message, one Err per junk frame, nothing for ticks and non-final fragments; no panic. Fragmented messages are sent as the protocol prescribes and their non-delivery is the recorded known finding; any other discrepancy fails. Sampling, not proof.",
          "Trusted: the sender model and independent encoder (written from the protocol documents); junk frames avoid the cache slots and sequence ids the model uses.",
          "DESIGN.md section 3, C06"),
- "C14": ("deterministic simulation of connection histories: a sender model with an Erlang-conformant atom cache (8 segments x 256 slots, header position independent of slot, create / re-use / overwrite across 1..30 messages, long atoms, both parities) drives a real connected Connection; the library's own header-mode frames are read by an independent header reader and echoed back",
+ "C14": ("deterministic simulation of connection histories: a sender model with an Erlang-conformant atom cache (8 segments x 256 slots, header position independent of slot, create / re-use / overwrite across 1..30, 300..600 and (rarely) 52..60 heavy messages carrying more than 64 MiB of atom text, long atoms also as node and module names, both parities) drives a real connected Connection; the library's own header-mode frames are read by an independent header reader and echoed back",
          "History half of C14 (the single-message half is a pure function and is exercised only as a by-product). Oracle: every message of the history is returned with control and payload equal to what the sender meant; every frame the library emits in header mode is read by the independent reader as the same terms, messages with more than 255 distinct atoms are refused, and the same Connection decodes its own echoed encoding identically. Sampling, not proof.",
          "Trusted: the simulator's header writer/reader (written from the protocol documents); any slot assignment by the sender conforms.",
          "DESIGN.md section 3, C14"),
@@ -91,14 +91,14 @@ def main():
             "add_only": True,
         },
         "engines": [
-            {"name": "edp_sim", "path": "/verif/sim", "serves_properties": sorted(k for k in CLAIMED if k != "C16"),
+            {"name": "edp_sim", "path": "/verif/sim", "serves_properties": sorted(CLAIMED),
              "kind_free_text": "deterministic simulator: seeded plans + schedule tape, simulated stream transport and paused clock, scripted peer with an independent codec, minimiser and replay"},
             {"name": "c16_shuttle", "path": "/verif/c16_shuttle", "serves_properties": ["C16"],
              "kind_free_text": "shuttle-scheduled threads over the real allocator code (shadow manifests add the shuttle dependency; DFS / seeded random / PCT schedulers; persisted schedules replay)"},
         ],
         "checks": checks,
         "not_applicable": na,
-        "notes": "See DESIGN.md. Exit codes: 0 held, 1 violation (VIOLATION line with replay file), 2 harness error (build failure, nondeterminism, unreproducible replay).",
+        "notes": "See DESIGN.md (section 9 is the as-built account; 9.8 lists what each check varies). /verif/known_findings.json holds the open and fixed findings, /verif/seeded/ 170 independently authored seeded defects with their demonstrations (tools/seeded_all.sh re-applies each to /repo and runs the deciding check). Exit codes: 0 held, 1 violation (VIOLATION line with replay file), 2 harness error (build failure, nondeterminism, unreproducible replay).",
     }
     json.dump(m, open("/verif/MANIFEST.json","w"), indent=1)
     print("claimed", sorted(CLAIMED), "n/a", len(na))
